@@ -568,16 +568,14 @@ func verifLemmaSequencerConsecutive(s *sequencer) (uint16, uint16) {
 // the bound of wfHeader), its CSRC loop cut by its own invariant.
 //@ spec verifLemmaHeaderRoundTrip
 //@   requires wfHeader(h)
-//@   requires b != nil && b.CSRC == nil && b.Extensions == nil
 //@   case noext: !h.Extension
 //@   case onebyte0: h.Extension && h.ExtensionProfile == 48862 && len(h.Extensions) == 0
 //@   case onebyte1: h.Extension && h.ExtensionProfile == 48862 && len(h.Extensions) == 1
-//@   case onebyte2: h.Extension && h.ExtensionProfile == 48862 && len(h.Extensions) == 2
+//@   case onebyte2 [THOROUGH]: h.Extension && h.ExtensionProfile == 48862 && len(h.Extensions) == 2
 //@   case twobyte0: h.Extension && h.ExtensionProfile == 4096 && len(h.Extensions) == 0
 //@   case twobyte1: h.Extension && h.ExtensionProfile == 4096 && len(h.Extensions) == 1
-//@   case twobyte2: h.Extension && h.ExtensionProfile == 4096 && len(h.Extensions) == 2
+//@   case twobyte2 [THOROUGH]: h.Extension && h.ExtensionProfile == 4096 && len(h.Extensions) == 2
 //@   case legacy: h.Extension && h.ExtensionProfile != 48862 && h.ExtensionProfile != 4096
-//@   modifies b.*
 //@   inline-calls Unmarshal
 //@   unroll 6 complete
 //@   unroll-loops Unmarshal:1
@@ -589,13 +587,14 @@ func verifLemmaSequencerConsecutive(s *sequencer) (uint16, uint16) {
 //@   ensures profile [C01]: h.Extension ==> b.ExtensionProfile == h.ExtensionProfile
 //@   ensures elements [C01]: len(b.Extensions) == len(h.Extensions) && (0 < len(h.Extensions) ==> b.Extensions[0].id == h.Extensions[0].id && len(b.Extensions[0].payload) == len(h.Extensions[0].payload) && eqseq(b.Extensions[0].payload, 0, h.Extensions[0].payload, 0, len(h.Extensions[0].payload))) && (1 < len(h.Extensions) ==> b.Extensions[1].id == h.Extensions[1].id && len(b.Extensions[1].payload) == len(h.Extensions[1].payload) && eqseq(b.Extensions[1].payload, 0, h.Extensions[1].payload, 0, len(h.Extensions[1].payload)))
 //@ end
-func verifLemmaHeaderRoundTrip(h Header, b *Header) (n int, err error) {
+func verifLemmaHeaderRoundTrip(h Header) (b Header, n int, err error) {
 	buf, err := h.Marshal()
 	if err != nil {
-		return 0, err
+		return b, 0, err
 	}
+	n, err = b.Unmarshal(buf)
 
-	return b.Unmarshal(buf)
+	return b, n, err
 }
 
 // ===== C05: a header left without elements still serialises =====
